@@ -182,6 +182,16 @@ def check_frame(ctx, pfx, adt, table, why):
             # explicit API (a setter the user has to invoke): it changes no existing behaviour.  Trait methods (dispatched from
             # generic code), functions of the reference API (their behaviour is what users already rely on) and anything the
             # existing code reaches are implicit writers.
+            if implicit and eb is not None and x[1] in ('ctor', 'ctor-base') and not any(y[0] == x[0] and y[1] not in ('ctor', 'ctor-base') for y in got):
+                # a builder-style method that REBUILDS the value (`Self { f: self.f, g: new }`, possibly through a private constructor
+                # helper) writes only the fields whose value differs from the receiver's: decided on the evaluation of the method
+                try:
+                    from .speclib import fld, S as _S
+                    rt = ctx.evaluate(eb).ret_term
+                    if rt is not None and fld(rt, f) is fld(_S('self'), f):
+                        continue
+                except Exception:
+                    pass
             (extra if implicit else explicit).append(x)
         ctx.check(pfx + '.frame', A, f, not extra, expected='written only by %s (or by new public API that no existing code calls)' % sorted(allowed),
                   found='also written by %s' % extra if extra else '%s%s' % (sorted(x for x in got if x not in explicit), '; explicit new API: %s' % explicit if explicit else ''),
